@@ -203,8 +203,8 @@ theorem typep_iff_subtypep (reg : Reg) (c : Nat) (σ : Ty) (hc : defined reg c =
     simp only [subtypep, typeOf, tyDefined, hc, hd, inherits, Bool.true_and, Bool.or_eq_true, beq_iff_eq,
       List.contains_eq_mem, decide_eq_true_eq, Ty.user.injEq, reduceCtorEq, or_false]
     exact ⟨fun h => h.elim (fun h => Or.inl h.symm) Or.inr, fun h => h.elim (fun h => Or.inl h.symm) Or.inr⟩
-  | base => simp [subtypep, typeOf, tyDefined, hc, inherits]
-  | top => simp [subtypep, typeOf, tyDefined, hc, inherits]
+  | base => simp [tyDefined] at hσ
+  | top => simp [tyDefined] at hσ
   | alien => simp [subtypep, typeOf, tyDefined, hc, inherits]
 
 /-- every instance satisfies typep of every supertype of its type-of -/
@@ -234,24 +234,18 @@ theorem subtypep_trans (reg : Reg) (hs : Stable reg (fuelOf reg)) (a b c : Ty)
   · exact Or.inr hab
   right
   cases a with
-  | top => simp at hab
-  | base =>
-    have : b = .top := by simpa using hab
-    subst this; simp at hbc
-  | alien =>
-    have : b = .top := by simpa using hab
-    subst this; simp at hbc
+  | top => simp [tyDefined] at ha
+  | base => simp [tyDefined] at ha
+  | alien => simp at hab
   | user x =>
     cases b with
-    | top => simp at hbc
+    | top => simp [inherits] at hab
     | alien => simp [inherits] at hab
-    | base =>
-      have : c = .top := by simpa using hbc
-      subst this; simp [inherits]
+    | base => simp [inherits] at hab
     | user y =>
       cases c with
-      | top => simp [inherits]
-      | base => simp [inherits]
+      | top => simp [tyDefined] at hc
+      | base => simp [tyDefined] at hc
       | alien => simp [inherits] at hbc
       | user z =>
         simp only [inherits, List.contains_eq_mem, decide_eq_true_eq] at hab hbc ⊢
